@@ -89,8 +89,8 @@ func (w *methodWorld) Do(st Step) string {
 					}
 					return base + a
 				}
-				if meth == "call" {
-					h := bl.Struct(&mz.A{}).ExportMethod("call")
+				if meth == "call" || meth == "callAll" {
+					h := bl.Struct(&mz.A{}).ExportMethod(meth)
 					if apply {
 						h.Apply(cb)
 					} else {
@@ -225,6 +225,8 @@ func (w *methodWorld) call(t string, i int) int {
 		return instA[i].Call(7)
 	case "A.Call2":
 		return instA[i].Call2(7)
+	case "A.callAll":
+		return instA[i].CallAllLower(7)
 	case "A.call":
 		return instA[i].CallLower(7)
 	case "V.Call":
@@ -255,7 +257,7 @@ func (w *methodWorld) call(t string, i int) int {
 	panic("target " + t)
 }
 
-var origBase = map[string]int{"A.Call": 100, "A.Call2": 200, "A.call": 300, "V.Call": 400, "V.Get": 500, "u.Call": 600, "l.Call": 1100, "E.Own": 700,
+var origBase = map[string]int{"A.Call": 100, "A.Call2": 200, "A.call": 300, "A.callAll": 1200, "V.Call": 400, "V.Get": 500, "u.Call": 600, "l.Call": 1100, "E.Own": 700,
 	"E.Call": 100, "M.P": 900, "M.Q": 1000, "Gint.M": 800, "Gstr.M": 800, "GpA.M": 800, "GpV.M": 800}
 
 func (w *methodWorld) Observe(st Step) map[string]string {
